@@ -37,6 +37,8 @@ type Ext struct {
 	OwnPath  map[int]PathSpec // accepted path for each own seed
 	OwnNotRq map[int]bool     // FileRequired rejected every candidate and no canonical path is known
 	Det      []int            // unmutated seeds run once (deterministic prefix of the case list)
+	Sys      []SysCase        // systematic pass: enumerated edits of small seeds, run once after Det, before the random phase
+	SysStat  SysStat
 }
 
 // Skipped describes an extractor that is not fuzzed.
